@@ -136,6 +136,8 @@ def decode_chain(ctx: Ctx) -> tuple[dict, Optional[ClassInfo], bool]:
 
 def run(ctx: Ctx) -> None:
     m = ctx.model
+    from .c15 import tokenize_clause
+    tokenize_clause(ctx, ctx.rule("R19.tok", "every line is tokenised by the TOY grammar itself (nothing remembered across parsers or texts)"))
     tab = toy_table(ctx)
     rows = tab["rows"]
     mod = tab["module"]
